@@ -40,7 +40,7 @@ RULE = ('random schemas (1-4 classes, 0-3 associations with 0-3 key attributes o
         '(quick: <= 6, and <= 7 on a sample), 50 random permutations otherwise; random partitions into 1-4 input '
         'calls / files / directory chain / wide directory / zip members / one file through the bridgepoint loader; '
         'API and clone construction; rejected inputs (duplicate class, unknown class or key in an association or '
-        'identifier, named INSERT with unequal lengths). Non-trivial = some association has both a linked and an '
+        'identifier, key lists of different length, named INSERT with unequal lengths). Non-trivial = some association has both a linked and an '
         'unlinked (null, dangling) candidate pair; distinct = distinct statement text')
 EXHAUSTIVE = {'quick': False, 'thorough': False}
 ASSUMPTIONS = [
@@ -146,7 +146,7 @@ def _error_case(rng):
     stmts = None
     while not stmts or not any(s['t'] == 'cls' for s in stmts):
         stmts = G.gen_population(rng, max_rows=2, max_stmts=7)
-    kind = rng.choice(['dup-class', 'rop-class', 'rop-key', 'uniq-class', 'named-len'])
+    kind = rng.choice(['dup-class', 'rop-class', 'rop-key', 'rop-len', 'uniq-class', 'named-len'])
     classes = [s for s in stmts if s['t'] == 'cls']
     c = rng.choice(classes)
     if kind == 'dup-class':
@@ -163,6 +163,10 @@ def _error_case(rng):
     elif kind == 'rop-key':
         stmts.append({'t': 'assoc', 'rel': 'R9', 'sk': c['kind'], 'scard': 'MC', 'skeys': [c['attrs'][0][0]], 'sph': 'p',
                       'tk': c['kind'], 'tcard': '1C', 'tkeys': ['nokey'], 'tph': 'q'})
+    elif kind == 'rop-len':
+        # key lists of different length
+        stmts.append({'t': 'assoc', 'rel': 'R9', 'sk': c['kind'], 'scard': 'MC', 'skeys': [c['attrs'][0][0]], 'sph': 'p',
+                      'tk': c['kind'], 'tcard': '1C', 'tkeys': [c['attrs'][0][0], c['attrs'][-1][0]], 'tph': 'q'})
     elif kind == 'uniq-class':
         stmts.append({'t': 'uniq', 'kind': 'KZ', 'name': 'I1', 'attrs': ['a0']})
     else:
